@@ -7,6 +7,12 @@
   err | panic`, every vector `pre ++ x :: post` (any length, failure at any position `pre.length`),
   both failure modes (`FailMode.err`, `FailMode.panic`), and for boxes.
 
+  Drop glue: `lay.glueT` / `lay.glueU` say whether `T` / `U` have a destructor.  The drop log only
+  records destructor runs of types that have one: `logOf lay ty tag xs` is `xs.map (·, tag)` if
+  `ty` has drop glue and `[]` otherwise.  `each_dropped_once` therefore speaks of the elements whose
+  type has drop glue (leaks of glue-less elements are unobservable and not claimed); `no_ub` and
+  `nothingLive` still cover every slot, with or without glue.
+
   Scope: the theorems are about the slot-level model.  The allocator (sizes, capacities, the
   inside of `Vec::from_raw_parts`) is not modelled; "freed exactly once" means: the buffer ends
   `freed` and the run is not `ub` (a second free is `ub` in the model).
@@ -40,24 +46,38 @@ theorem vec_success_no_drop (lay : Layout) (cb : Callback) (ids us : List Nat) (
 
 /-- On failure at position `pre.length` (error return or panic) the function is left in the
     matching way and the drop log is a permutation of: the failing element (dropped by the
-    callback), every already mapped element as `U`, every not yet mapped element as `T` —
-    one entry per position of the vector; and no live value remains in any buffer (no leak). -/
+    callback), every already mapped element as `U`, every not yet mapped element as `T` — each
+    restricted to the types that have drop glue; and no live value remains in any buffer. -/
 theorem vec_each_dropped_once (lay : Layout) (cb : Callback) (mode : FailMode)
     (pre : List Nat) (x : Nat) (post us : List Nat)
     (h : Oks cb 0 pre us) (hx : cb pre.length x = mode.out) :
     ∃ st, fallibleMapVec lay cb (pre ++ x :: post) = .fin mode.exit st ∧
-      st.log.Perm ((x, Tag.cb) :: (us.map (fun u => (u, Tag.U)) ++ post.map (fun t => (t, Tag.T)))) ∧
-      st.log.length = (pre ++ x :: post).length ∧
+      st.log.Perm (logOf lay .T .cb [x] ++ (logOf lay .U .U us ++ logOf lay .T .T post)) ∧
       st.src.nothingLive ∧ (∀ d, st.dst = some d → d.nothingLive) := by
-  have hlen := Oks.length_eq h
   refine ⟨_, vec_run_fail lay cb mode pre x post us h hx, ?_⟩
   unfold failFinal
   split
-  · refine ⟨List.Perm.cons _ List.perm_append_comm, ?_, nothingLive_moved_dead (pre ++ [x]) post, ?_⟩
-    · simp [logOf, hlen]; omega
-    · intro d hd; cases hd; exact nothingLive_dead us
-  · refine ⟨List.Perm.refl _, ?_, nothingLive_dead_moved_dead us post, fun d hd => by cases hd⟩
-    simp [logOf, hlen]; omega
+  · refine ⟨List.Perm.append_left _ List.perm_append_comm, nothingLive_moved_dead (pre ++ [x]) post, ?_⟩
+    intro d hd; cases hd; exact nothingLive_dead us
+  · exact ⟨List.Perm.refl _, nothingLive_dead_moved_dead us post, fun d hd => by cases hd⟩
+
+/-- When both element types have drop glue (the case of chalk's folded values and of the crate's
+    unit tests) this is the unrestricted statement: one log entry per position of the vector. -/
+theorem vec_each_dropped_once_glue (lay : Layout) (hT : lay.glueT = true) (hU : lay.glueU = true)
+    (cb : Callback) (mode : FailMode) (pre : List Nat) (x : Nat) (post us : List Nat)
+    (h : Oks cb 0 pre us) (hx : cb pre.length x = mode.out) :
+    ∃ st, fallibleMapVec lay cb (pre ++ x :: post) = .fin mode.exit st ∧
+      st.log.Perm ((x, Tag.cb) :: (us.map (fun u => (u, Tag.U)) ++ post.map (fun t => (t, Tag.T)))) ∧
+      st.log.length = (pre ++ x :: post).length := by
+  obtain ⟨st, hrun, hperm, -⟩ := vec_each_dropped_once lay cb mode pre x post us h hx
+  have hlen := Oks.length_eq h
+  have e : logOf lay .T .cb [x] ++ (logOf lay .U .U us ++ logOf lay .T .T post)
+      = (x, Tag.cb) :: (us.map (fun u => (u, Tag.U)) ++ post.map (fun t => (t, Tag.T))) := by
+    simp [logOf, Layout.glue, hT, hU]
+  rw [e] at hperm
+  refine ⟨st, hrun, hperm, ?_⟩
+  rw [hperm.length_eq]
+  simp [hlen]; omega
 
 /-- If the elements are pairwise distinct (ids of the input and ids of the mapped values), no
     entry occurs twice in the drop log: nothing is dropped twice. -/
@@ -71,17 +91,26 @@ theorem vec_drop_log_nodup (lay : Layout) (cb : Callback) (mode : FailMode)
   rw [hrun] at hst
   cases hst
   rw [hperm.nodup_iff]
-  have hinjU : ∀ a b : Nat, (a, Tag.U) = (b, Tag.U) → a = b := by intro a b e; cases e; rfl
-  have hinjT : ∀ a b : Nat, (a, Tag.T) = (b, Tag.T) → a = b := by intro a b e; cases e; rfl
-  rw [List.nodup_cons, List.nodup_append]
-  refine ⟨by simp, ?_, ?_, ?_⟩
-  · exact List.Pairwise.map _ (fun a b hab e => hab (hinjU a b e)) hus
-  · exact List.Pairwise.map _ (fun a b hab e => hab (hinjT a b e)) hpost
-  · intro a ha b hb
-    simp only [List.mem_map] at ha hb
-    rcases ha with ⟨_, _, rfl⟩
-    rcases hb with ⟨_, _, rfl⟩
-    simp
+  have hnd : ∀ (ty : ElemTy) (t : Tag) (xs : List Nat), xs.Nodup → (logOf lay ty t xs).Nodup := by
+    intro ty t xs hxs
+    unfold logOf; split
+    · exact List.Pairwise.map _ (fun a b hab e => hab (by cases e; rfl)) hxs
+    · exact List.Pairwise.nil
+  have htag : ∀ (ty : ElemTy) (t : Tag) (xs : List Nat) e, e ∈ logOf lay ty t xs → e.2 = t := by
+    intro ty t xs e he
+    unfold logOf at he; split at he
+    · simp only [List.mem_map] at he; rcases he with ⟨_, _, rfl⟩; rfl
+    · cases he
+  rw [List.nodup_append, List.nodup_append]
+  refine ⟨hnd _ _ _ (by simp), ⟨hnd _ _ _ hus, hnd _ _ _ hpost, ?_⟩, ?_⟩
+  · intro a ha b hb e
+    have h1 := htag _ _ _ _ ha; have h2 := htag _ _ _ _ hb
+    rw [e] at h1; rw [h1] at h2; cases h2
+  · intro a ha b hb e
+    have h1 := htag _ _ _ _ ha
+    rcases List.mem_append.mp hb with hb | hb
+    · have h2 := htag _ _ _ _ hb; rw [e] at h1; rw [h1] at h2; cases h2
+    · have h2 := htag _ _ _ _ hb; rw [e] at h1; rw [h1] at h2; cases h2
 
 /-- On failure every buffer the function owned ends `freed` (and by `vec_no_ub` it was freed only
     once: a second free is `ub`). -/
@@ -129,24 +158,24 @@ theorem box_success_no_drop (lay : Layout) (cb : Callback) (id u : Nat) (h : cb 
     ∃ st, fallibleMapBox lay cb id = .fin .ok st ∧
       st.result = ⟨[.liveU u], .owned⟩ ∧ st.log = [] ∧
       (∀ d, st.dst = some d → st.src = ⟨[.moved], .freed⟩) := by
-  rcases lay with ⟨_ | _, _ | _⟩ <;>
+  rcases lay with ⟨_ | _, _ | _, _ | _, gU⟩ <;>
     simp [fallibleMapBox, mapBoxFallback, mapBoxInPlace, Region.read, Region.write, Region.free, h,
       St.result]
 
 theorem box_each_dropped_once (lay : Layout) (cb : Callback) (mode : FailMode) (id : Nat)
     (h : cb 0 id = mode.out) :
     ∃ st, fallibleMapBox lay cb id = .fin mode.exit st ∧
-      st.log = [(id, Tag.cb)] ∧ st.src.nothingLive ∧ st.dst = none := by
-  rcases lay with ⟨_ | _, _ | _⟩ <;> cases mode <;>
+      st.log = logOf lay .T .cb [id] ∧ st.src.nothingLive ∧ st.dst = none := by
+  rcases lay with ⟨_ | _, _ | _, _ | _, gU⟩ <;> cases mode <;>
     simp [fallibleMapBox, mapBoxFallback, mapBoxInPlace, Region.read, Region.write, Region.free,
-      FailMode.out, FailMode.exit] at h ⊢ <;>
+      FailMode.out, FailMode.exit, logOf, Layout.logDrop, Layout.glue] at h ⊢ <;>
     simp [h, Region.nothingLive]
 
 theorem box_buffer_freed_once (lay : Layout) (cb : Callback) (mode : FailMode) (id : Nat)
     (h : cb 0 id = mode.out) :
     ∃ st, fallibleMapBox lay cb id = .fin mode.exit st ∧
       st.src.buf = .freed ∧ st.dst = none := by
-  rcases lay with ⟨_ | _, _ | _⟩ <;> cases mode <;>
+  rcases lay with ⟨_ | _, _ | _, _ | _, gU⟩ <;> cases mode <;>
     simp [fallibleMapBox, mapBoxFallback, mapBoxInPlace, Region.read, Region.write, Region.free,
       FailMode.out, FailMode.exit] at h ⊢ <;>
     simp [h]
@@ -176,46 +205,56 @@ example : Oks (testCb 2 .err) 0 [0, 1] [65, 66] ∧ testCb 2 .err [0, 1].length 
   simp [Oks, testCb, FailMode.out]
 
 /-- `vec_cleanup_after_early_return` of in_place.rs: drops `2, A, B, 3, 4` in this order -/
-example : fallibleMapVec ⟨true, false⟩ (testCb 2 .err) [0, 1, 2, 3, 4]
+example : fallibleMapVec { identical := true, zst := false } (testCb 2 .err) [0, 1, 2, 3, 4]
     = .fin .err ⟨⟨[.dropped, .dropped, .moved, .dropped, .dropped], .freed⟩, none,
         [(2, .cb), (65, .U), (66, .U), (3, .T), (4, .T)]⟩ := by rfl
 
 /-- `vec_cleanup_after_panic`: drops `3, A, B, C, 4` -/
-example : fallibleMapVec ⟨true, false⟩ (testCb 3 .panic) [0, 1, 2, 3, 4]
+example : fallibleMapVec { identical := true, zst := false } (testCb 3 .panic) [0, 1, 2, 3, 4]
     = .fin .panic ⟨⟨[.dropped, .dropped, .dropped, .moved, .dropped], .freed⟩, none,
         [(3, .cb), (65, .U), (66, .U), (67, .U), (4, .T)]⟩ := by rfl
 
 /-- the same failure on the fallback path (different layout): two buffers, both freed -/
-example : fallibleMapVec ⟨false, false⟩ (testCb 2 .err) [0, 1, 2, 3, 4]
+example : fallibleMapVec { identical := false, zst := false } (testCb 2 .err) [0, 1, 2, 3, 4]
     = .fin .err ⟨⟨[.moved, .moved, .moved, .dropped, .dropped], .freed⟩,
         some ⟨[.dropped, .dropped], .freed⟩,
         [(2, .cb), (3, .T), (4, .T), (65, .U), (66, .U)]⟩ := by rfl
 
 /-- success: buffer reused, nothing dropped -/
-example : fallibleMapVec ⟨true, false⟩ (testCb 9 .err) [0, 1, 2]
+example : fallibleMapVec { identical := true, zst := false } (testCb 9 .err) [0, 1, 2]
     = .fin .ok ⟨⟨[.liveU 65, .liveU 66, .liveU 67], .owned⟩, none, []⟩ := by rfl
 
-example : fallibleMapBox ⟨true, false⟩ (testCb 0 .panic) 0
+example : fallibleMapBox { identical := true, zst := false } (testCb 0 .panic) 0
     = .fin .panic ⟨⟨[.moved], .freed⟩, none, [(0, .cb)]⟩ := by rfl
+
+/-- drop glue: with a plain `T` (no destructor) and a drop-recording `U`, only the mapped prefix
+    shows in the log — and it must show: a guard that skipped its loops would leak `65`, `66` -/
+example : fallibleMapVec { identical := true, zst := false, glueT := false } (testCb 2 .err) [0, 1, 2, 3, 4]
+    = .fin .err ⟨⟨[.dropped, .dropped, .moved, .dropped, .dropped], .freed⟩, none,
+        [(65, .U), (66, .U)]⟩ := by rfl
+example : fallibleMapVec { identical := true, zst := false, glueU := false } (testCb 2 .err) [0, 1, 2, 3, 4]
+    = .fin .err ⟨⟨[.dropped, .dropped, .moved, .dropped, .dropped], .freed⟩, none,
+        [(2, .cb), (3, .T), (4, .T)]⟩ := by rfl
 
 /-- `ub` is reachable in the model (so `no_ub` says something): with the slot at index 1 handed
     to the callback, the guard with the right `map_in_progress` cleans up, a guard that is one off
     in either direction runs a destructor on the moved-out slot … -/
-example : guardDrop ⟨3, 1⟩ ⟨[.liveU 65, .moved, .liveT 2], .owned⟩ []
+example : guardDrop { identical := true, zst := false } ⟨3, 1⟩ ⟨[.liveU 65, .moved, .liveT 2], .owned⟩ []
     = .ok (⟨[.dropped, .moved, .dropped], .freed⟩, [(65, .U), (2, .T)]) := by rfl
-example : guardDrop ⟨3, 0⟩ ⟨[.liveU 65, .moved, .liveT 2], .owned⟩ []
+example : guardDrop { identical := true, zst := false } ⟨3, 0⟩ ⟨[.liveU 65, .moved, .liveT 2], .owned⟩ []
     = .ub "drop_in_place of moved-out slot" := by rfl
-example : guardDrop ⟨3, 2⟩ ⟨[.liveU 65, .moved, .liveT 2], .owned⟩ []
+example : guardDrop { identical := true, zst := false } ⟨3, 2⟩ ⟨[.liveU 65, .moved, .liveT 2], .owned⟩ []
     = .ub "drop_in_place of moved-out slot" := by rfl
 /-- … and running the guard's destructor after `finish` would free twice / drop twice. -/
 example : (Region.mk [] .freed).free = .ub "double free" := by rfl
-example : dropRange .U 1 0 ⟨[.dropped], .owned⟩ [] = .ub "double drop" := by rfl
+example : dropRange { identical := true, zst := false } .U 1 0 ⟨[.dropped], .owned⟩ [] = .ub "double drop" := by rfl
 
 end Chalk.C27
 
 #print axioms Chalk.C27.cases_exhaustive
 #print axioms Chalk.C27.vec_success_no_drop
 #print axioms Chalk.C27.vec_each_dropped_once
+#print axioms Chalk.C27.vec_each_dropped_once_glue
 #print axioms Chalk.C27.vec_drop_log_nodup
 #print axioms Chalk.C27.vec_buffer_freed_once
 #print axioms Chalk.C27.vec_no_ub
